@@ -200,28 +200,34 @@ def c03(L, tier, jobs=16):
             r = Result(name, kind, verdict, secs)
             s._log(r)
     s.holds("non-dummy => root_hash = cut 16", z3.Implies(nd, eq4(L.root, T(cuts[16]))))
-    # --- glue: the proven lemmas (over fresh cut constants) imply the nested fold statement
+    # --- glue: the proven lemmas (instantiated over fresh cut constants, one query per depth d in 0..16,
+    # depth <= 16 being proved above) imply the nested statement  root = fold_d(leaf hash)
     g = Session("C03", [], timeout_s=timeout_s)
     sp = Sponge(sx)
     c = [[z3.Int(f"g_cut_{l}_{e}") for e in range(4)] for l in range(17)]
-    depth = z3.Int("g_depth"); pos = [z3.Int(f"g_pos_{l}") for l in range(16)]
+    pos = [z3.Int(f"g_pos_{l}") for l in range(16)]
     sib = [[[z3.Int(f"g_sib_{l}_{k}_{e}") for e in range(4)] for k in range(3)] for l in range(16)]
-    leaf = [z3.Int(f"g_leaf_{e}") for e in range(4)]
+    leafv = [z3.Int(f"g_leaf_{e}") for e in range(4)]
     root = [z3.Int(f"g_root_{e}") for e in range(4)]
-    ndv = z3.Bool("g_not_dummy")
-    g.add(eq4(c[0], leaf))
-    g.add(*[z3.And(x >= 0, x < P) for cl in c for x in cl])
-    for l in range(16):
-        step = sp.hash(_ins(sib[l], pos[l], c[l]))
-        g.add(eq4(c[l + 1], [z3.If(depth > l, step[e], c[l][e]) for e in range(4)]))
-    g.add(z3.Implies(ndv, eq4(root, c[16])), depth >= 0, depth <= 16)
-    F = leaf
-    Fs = [F]
-    for l in range(16):
-        F = sp.hash(_ins(sib[l], pos[l], F))
-        Fs.append(F)
-    g.holds("glue: lemmas => non-dummy root = fold of depth levels from the leaf hash",
-            z3.Implies(ndv, z3.Or([z3.And(depth == d, eq4(root, Fs[d])) for d in range(17)])))
+    t0 = time.time()
+    bad = 0
+    for d in range(17):
+        sol = z3.Solver()
+        sol.set("timeout", int(timeout_s * 1000))
+        sol.add(eq4(c[0], leafv))
+        sol.add([z3.And(x >= 0, x < P) for cl in c for x in cl])
+        for l in range(16):
+            sol.add(eq4(c[l + 1], sp.hash(_ins(sib[l], pos[l], c[l])) if l < d else c[l]))
+        sol.add(eq4(root, c[16]))
+        F = leafv
+        for l in range(d):
+            F = sp.hash(_ins(sib[l], pos[l], F))
+        sol.add(z3.Not(eq4(root, F)))
+        sol.add(sp.axioms())
+        if sol.check() != z3.unsat:
+            bad += 1
+    g._log(Result("glue: level lemmas + root binding => non-dummy root = d-level fold of the leaf hash, for each depth d in 0..16 (17 queries)",
+                  "holds", "HOLDS" if bad == 0 else "UNKNOWN", time.time() - t0))
     return [s, g]
 
 
